@@ -50,6 +50,11 @@ ASSUMPTIONS = [
     '(precedence among duplicates / parameters is C11 territory)',
     'ASGI server=[path, None] (UNIX socket) and Range values outside the documented forms are checked for '
     'totality only',
+    'ASGI scope without server (or server=None) reads as ("localhost", default port of the scheme), as pinned by '
+    'tests/asgi/test_request_asgi.py; missing / None client and missing REMOTE_ADDR read as 127.0.0.1 (docstrings)',
+    'IPv6 hosts are reported without brackets (parse_host contract, pinned by the repo tests)',
+    'resp.etag is given ETag.dumps() output, or the bare opaque string for non-empty strong tags '
+    '(resp.etag = "" raises IndexError in _format_etag_header; response-side, not asserted here)',
     'Atheris byte-level campaign of the design is not part of this module',
 ]
 
@@ -171,10 +176,6 @@ def make_probes(headers, scheme='http', server=('falconframework.org', 80), serv
         del scope['scheme']
     sent = list(headers)
     return [Probe('WSGI', falcon.Request(env), sent), Probe('ASGI', falcon.asgi.Request(scope, _receive), sent)]
-
-
-def canonical(name, canon):
-    return name == canon
 
 
 def name_labels(name, lookup, canon):
